@@ -174,6 +174,11 @@ static int URI_FUNC(RemoveBaseUriImpl)(URI_TYPE(Uri) * dest,
 						if (!URI_FUNC(CopyAuthority)(dest, absSource, memory)) {
 							return URI_ERROR_MALLOC;
 						}
+						if (!URI_FUNC(IsHostSet)(absSource)) {
+							/* A reference without scheme would inherit the
+							 * authority of the base when resolved */
+							dest->scheme = absSource->scheme;
+						}
 	/* [09/50]	      T.path      = A.path; */
 						if (!URI_FUNC(CopyPath)(dest, absSource, memory)) {
 							return URI_ERROR_MALLOC;
